@@ -22,7 +22,7 @@ CHECKS = {
             'Transport, HTTP server, ws-discovery, clock, uuid4 and Thread.start are harness stand-ins; one MDIB file '
             '(tests/mdib_tns.xml); depth and alphabet bounds as stated in the evidence.', '3/C01'),
     'C02': ('H', 'explicit-state exploration of provider transaction histories incl. all ordered pairs of related operations inside one transaction; version and referential invariants on consecutive canonical snapshots',
-            'Extensions: aborted transactions (pre-commit handler raises) between a delete and a re-create of a handle, pre-state with a removed handle whose versions were above zero. '
+            'Extensions: late-raise[...] events (application code raises after the commit: the commit stands); a changed set of children requires a higher DescriptorVersion of the parent; in-place list edit and signal create/delete events in the alphabet; aborted transactions (pre-commit handler raises) between a delete and a re-create of a handle, pre-state with a removed handle whose versions were above zero. '
             'All 2-event histories over the 48-event alphabet, 60 multi-operation descriptor transactions (every ordered pair of '
             '9 related operations on parent / grandparent / child / siblings / descriptor+state through the classic and the entity '
             'interface, plus triples) from 5 pre-states and followed by every core event (thorough: depth 3, pairs of such '
@@ -34,7 +34,7 @@ CHECKS = {
             'Provider side only; one MDIB file; depth/alphabet bounds as in the evidence. Version bookkeeping of the oracle is '
             'independent of handle_version_lookup.', '3/C02'),
     'C03': ('H+I', 'exhaustive crash-point enumeration over transaction bodies plus exhaustive enumeration (by reflection) of nested attribute paths of every handed-out object, against full canonical MDIB snapshots',
-            'Extensions: entities refreshed with entity.update() after a later commit made them stale are handed-out objects too (nested writes must stay private); every keyword combination of mk_context_state / add_state (handle none/existing/new x adjust_state_version x set_associated) as all-or-nothing calls; with periodic reports on, writing to a transaction result must not change the states retained for the periodic report of that commit. '
+            'Extensions: rejected calls whose exception is handled inside the transaction body (differential oracle: the same transaction without the call); commit paths the API could make fail half-way (state that exists in the mdib, foreign context-state handle through the entity interface, changed Handle of a descriptor copy); entities refreshed with entity.update() after a later commit made them stale are handed-out objects too (nested writes must stay private); every keyword combination of mk_context_state / add_state (handle none/existing/new x adjust_state_version x set_associated) as all-or-nothing calls; with periodic reports on, writing to a transaction result must not change the states retained for the periodic report of that commit. '
             'For 13 transaction bodies covering every transaction kind through the classic and the entity interface, an exception is '
             'raised after every non-empty ordered selection of the body\'s API calls and in the pre-commit hook; 29 calls the API must '
             'reject and 3 commit paths the API can make fail are issued alone and after a valid modification; every nested attribute '
@@ -46,7 +46,7 @@ CHECKS = {
             '(e.g. a table operation raising spontaneously) are not injected; tr.actual_descriptor() is a documented read accessor to '
             'the live object and is not treated as a copy.', '3/C03'),
     'C04': ('H+S', 'explicit-state exploration of transaction histories with a recording subscriber (wire messages re-parsed with lxml and validated by a harness-built XMLSchema); schedule exploration of concurrent writers for ordering',
-            'Extensions: every Crt/Upt part of a DescriptionModificationReport carries exactly the committed states of its descriptor (all context states); slow subscriber on the async managers: the k-th delivery takes 4-61 virtual seconds on a virtual asyncio loop, reports must still arrive in MdibVersion order and none may be lost. '
+            'Extensions: statement-granularity pass of the concurrent-writer part; in-place list edits (extension, body site) in the periodic-report histories; every Crt/Upt part of a DescriptionModificationReport carries exactly the committed states of its descriptor (all context states); slow subscriber on the async managers: the k-th delivery takes 4-61 virtual seconds on a virtual asyncio loop, reports must still arrive in MdibVersion order and none may be lost. '
             'Every event of the 50-event alphabet, all pairs over the 18-event core alphabet, pairs over two-MDS events on a two-MDS MDIB, '
             'the async subscription manager and the periodic-report store are executed with a recording subscriber. Every message on '
             'the wire is validated with an XMLSchema the harness builds from src/sdc11073/xsd (independent of the library validate '
@@ -58,7 +58,7 @@ CHECKS = {
             'Single subscriber; content comparison goes through the library reader (versions, handles, grouping through lxml only); '
             'ordering under concurrent writers is covered by the schedule-exploration part when present in the evidence.', '3/C04'),
     'C05': ('I', 'bounded-exhaustive enumeration of instances of every declared data-type / message / container class against the bundled XSD (independent libxml2 validator), canonical round-trip equality, write idempotence and object-identity rules',
-            'Extensions: exponent-form decimals in list attributes, the empty string for plain xsd:string members. '
+            'Extensions: hand-written XML members (HeaderInformationBlock.reference_parameters) in the value domain, purity and round-trip oracles; write / in-place edit of scalar lists / write again must equal a never-written equal value; exponent-form decimals in list attributes, the empty string for plain xsd:string members. '
             '225 classes found by reflection (participant model, message model, WS-Addressing / Eventing / Discovery / DPWS / MEX, SOAP fault, '
             'all state and descriptor containers; 174 validated as their named XSD type through a harness-generated wrapper schema or as global '
             'element, the rest inside their owners). Per class: the base instance (members that the library or the XSD requires), every single '
@@ -73,6 +73,7 @@ CHECKS = {
             'are not enumerated; msg_types.GetMdibResponse is round-trip only (raw element tree member). A small XSD structure model (mcx/xsdmodel.py) '
             'is used only to keep inputs inside the schema space, validity is always decided by libxml2.', '3/C05'),
     'C06': ('H+S', 'exhaustive enumeration of delivery sequences (each report 0, 1 or 2 times, any order) on the real consumer endpoint; id-change/reload histories; preemption-bounded schedule exploration of initial load / reload against deferred report delivery',
+            'Extensions: InstanceId-only changes between absent / 0 / 1 / 2^40 with the SequenceId unchanged; race scenarios in which the provider leaves the context states out of GetMdib (second request during the load); histories whose report is rejected half-way after a lost delete; statement-granularity pass over mdib/consumermdib*.py; '
             '(a) For 10 (thorough 16) provider histories the notifications are captured on the wire and every delivery sequence in which '
             'each of the first 4 (thorough 5) messages occurs 0, 1 or 2 times in any order, of length <= n+1 (plus every single drop, '
             'duplicate, adjacent swap and replay for longer wire lists) is posted to the real consumer endpoint (message converter, '
@@ -86,7 +87,7 @@ CHECKS = {
             'Consumer state is restored between delivery sequences from deep copies of the tables (self-checked); provider restart is '
             'modelled by assigning new ids; (c) models the deferred dispatcher by a FIFO between endpoint and a delivery thread.', '3/C06'),
     'C07': ('S', 'stateless preemption-bounded schedule exploration (CHESS-style iterative context bounding) of real request and writer threads under a cooperative baton scheduler; scheduling points at every lock acquire/release, plus a statement-granularity pass inside the handler and commit functions',
-            'Extensions: statement-granularity pass - every statement of the Get handlers, the MDIB reconstruction and the commit path is a scheduling point (sys.settrace line events in the scheduled threads), one preemption (thorough two), 12 scenarios; scenarios in which the requested handle itself is created / deleted by the concurrent transaction; InstanceId-only changes between absent / 0 / 1 / 2^40 with the SequenceId unchanged; schedule tree split over the workers (run_partitioned), thorough caps per subtree group. '
+            'Extensions: statement-granularity pass - every statement of the Get handlers, the MDIB reconstruction and the commit path is a scheduling point (sys.settrace line events in the scheduled threads), one preemption (thorough two), 12 scenarios; scenarios in which the requested handle itself is created / deleted by the concurrent transaction; schedule tree split over the workers (run_partitioned), thorough caps per subtree group. '
             '18 scenarios of 1-2 Get request threads (GetMdib, GetMdDescription all/one handle, GetMdState all/some handles, '
             'GetContextStates all/one descriptor - real request bytes through the real provider dispatch chain and handlers) against '
             '1-2 writer threads (metric, location, patient, descriptor update/create/delete transactions) run as real Python threads of '
@@ -113,7 +114,7 @@ CHECKS = {
             'One provider object is reused between histories (subscription table, client pool, wire log, clock, uuid counter are '
             'reset); expiry instants are never hit exactly; "sent" means handed to the subscriber-facing SOAP client.', '3/C08'),
     'C09': ('I+H', 'exhaustive enumeration of request sequences on the real provider stack (worker loop body driven explicitly) and of all orderings of response and reports on the real consumer OperationsManager; oracle = regular language of invocation-state words per transaction id',
-            'Extensions: raising handlers with awkward exception texts and types (control characters, XML markup, non-ASCII, lone surrogates, empty, 70 kB, CR/LF): the Fail report with error information must still be produced; bursts of 9-13 queued requests against the 10-entry operation queue (a Wait answer must be followed by Start and a final state); consumer handle completion judged by a reference rule (failing response completes at once, otherwise all parts up to the first final report); schedule part: 2-3 concurrent request threads, bound 2, transaction ids unique. '
+            'Extensions: invoke / un-register / invoke again histories; percent and brace characters in exception texts; statement- and bytecode-granularity pass of the concurrent-request part; raising handlers with awkward exception texts and types (control characters, XML markup, non-ASCII, lone surrogates, empty, 70 kB, CR/LF): the Fail report with error information must still be produced; bursts of 9-13 queued requests against the 10-entry operation queue (a Wait answer must be followed by Start and a final state); consumer handle completion judged by a reference rule (failing response completes at once, otherwise all parts up to the first final report); schedule part: 2-3 concurrent request threads, bound 2, transaction ids unique. '
             'Provider: every single request over 5 operation kinds (SetString, SetValue, Activate, SetContextState, SetAlertState) x '
             'direct/queued x handler {real, ok, ok-with-modification, returns Fail, raises}, the unknown operation, and pairs of requests '
             'from two consumers are sent through the real consumer service clients; the real SCO registry and worker loop body execute '
@@ -127,7 +128,7 @@ CHECKS = {
             'races that need a preemption inside generate_transaction_id are the subject of the schedule explorer (not part of this '
             'check yet).', '3/C09'),
     'C10': ('H', 'explicit-state exploration of histories of set_location, SetContextState invocations (real consumer client, provider SCO worker body, role provider) and context transactions; invariant on the context table and on every EpisodicContextReport',
-            'Extensions: schedule part: a SetContextState request thread racing with a provider-side context change of the same descriptor (3 writers x 2-4 proposals, preemption bound 1, thorough 2), invariants evaluated on the table recorded at every commit. '
+            'Extensions: location context states proposed through SetContextState, mixed with set_location; statement-granularity pass of the race part; schedule part: a SetContextState request thread racing with a provider-side context change of the same descriptor (3 writers x 2-4 proposals, preemption bound 1, thorough 2), invariants evaluated on the table recorded at every commit. '
             'All 2-event histories over 26 events and all 3-event histories over a 7-event core (thorough: larger core): SetContextState '
             'requests with one or two proposals (new / update of the first or second existing state / stale handle x NoAssociation, '
             'PreAssociation, Associated, Disassociated, including two associated proposals for one descriptor) sent by the real consumer '
@@ -139,7 +140,8 @@ CHECKS = {
             'Fail leaves the full canonical snapshot unchanged.',
             'Only the patient context has a SetContextState operation in tests/mdib_tns.xml; queued operations are executed by running '
             'the real worker loop body synchronously.', '3/C10'),
-    'C11': ('H', 'explicit-state BFS with canonical-state dedup over table operation histories on the real MultiKeyLookup tables, plus MDIB history exploration; invariant = indices equal an independent regrouping of table.objects',
+    'C11': ('H+S', 'explicit-state BFS with canonical-state dedup over table operation histories on the real MultiKeyLookup tables, plus MDIB history exploration, consumer MDIB after lost reports, and preemption-bounded schedule exploration (statement granularity) of a reader under the table lock against every locked mutator; invariant = indices equal an independent regrouping of table.objects',
+            'Extensions: (c) consumer MDIB after every subsequence of the reports of histories whose later reports are then rejected half-way (lost delete before a re-create); (d) schedule part c11_sched: a reader holding the table lock against every locked mutator of MultiKeyLookup, scheduling points at every statement of multikey.py; '
             'Breadth-first search over add (3 variants) / remove (3 variants) / attribute write + update_object / clear / bulk add / '
             'update_objects / duplicate-key add on the real DescriptorsLookup, StatesLookup, MultiStatesLookup, a generic 3-index '
             'table and the subscription-table declaration, 2-3 stub objects with colliding attribute domains, depth 5-6 (thorough 5-9), '
@@ -150,7 +152,7 @@ CHECKS = {
             'Attribute writes are always followed by update_object; updates that would create a duplicate unique key are outside the '
             'alphabet; the key functions of the index declarations are trusted, their maintenance is what is checked.', '3/C11'),
     'C12': ('H', 'exhaustive enumeration by reflection over all declared data-type/container classes of construct / parse(absent) / parse(present) / deepcopy / mk_copy / nested-write sequences',
-            'Extensions: the instances\' own storage (every mutable object in __dict__, e.g. the storage of observable properties) and the plain attribute node. '
+            'Extensions: populated instances carry extension elements; xml elements count as mutable members in the identity check; the instances\' own storage (every mutable object in __dict__, e.g. the storage of observable properties) and the plain attribute node. '
             'For each of the ~250 classes with declared properties six independently obtained instances (constructor, parse of an element '
             'with every optional/defaulted member absent, parse of a fully written default, deepcopy, mk_copy, second parse) are '
             'compared by identity of every nested mutable object (depth 3) with each other and with the class-level default objects; '
@@ -160,7 +162,7 @@ CHECKS = {
             'Classes that cannot be constructed without unknown arguments (19 abstract/helper classes) are skipped and counted; '
             'reflection depth 3.', '3/C12'),
     'C13': ('I', 'bounded-exhaustive enumeration of all single structure-aware mutations, HTTP framing and header variants and short raw byte strings of every request type the library produces, each executed on a pristine provider+consumer world through the real DispatchingRequestHandler and message converters',
-            'Extensions: multi-state reports and description modification reports of indexed descriptors in the corpus, substitution of existing handles of another kind, lookup scan (index consistency) in the compared state. '
+            'Extensions: percent-encoded request targets (non-latin-1, CR LF + header line, NUL, encoded slash / element, invalid UTF-8) and a response-header-injection oracle; consumer event sink with the default deferred dispatcher: the real worker loop is run after every request and must survive it; multi-state reports and description modification reports of indexed descriptors in the corpus, substitution of existing handles of another kind, lookup scan (index consistency) in the compared state. '
             'Corpus: all 34 request types captured from the loop-back wire (every service request incl. Subscribe/Renew/GetStatus/Unsubscribe, '
             'Probe, TransferGet, all 9 notification types, SubscriptionEnd). Per type: every element deleted / duplicated / renamed / moved to '
             'another or no namespace / swapped with its sibling / given an unexpected child; every attribute deleted / renamed / set to each of 15 '
@@ -177,7 +179,7 @@ CHECKS = {
             'blocking on an open idle connection is not modelled; the world is rebuilt after every state-changing accepted exchange (fork per '
             'case is 30-80 ms and serialises in this sandbox). Transaction-id counters are not part of the compared state.', '3/C13'),
     'C14': ('I+H', 'exhaustive enumeration of scope-URI pairs from a grammar against a reference matcher plus laws; explicit-state exploration of discovery datagram histories through the real reader/handlers against a reference model',
-            'Extensions: authority grammar (host case, port, userinfo, IPv6 literal, empty port) in all ordered pairs. '
+            'Extensions: application hello callback (raising / well-behaved) as an environment fault, repetition of older datagrams; requested scopes with the scheme in another case; authority grammar (host case, port, userinfo, IPv6 literal, empty port) in all ordered pairs. '
             'All ordered pairs over a URI grammar (3 schemes x 3 authorities x 0-2 (thorough 3) path segments over {x, X, x%2Fy, %78, '
             'empty} x trailing slash x query; quick: every third URI as probe scope) under rfc3986, default and strcmp0 matching are '
             'compared with a 12-line reference matcher written from the property text, plus reflexivity and query-blindness; every '
@@ -189,8 +191,8 @@ CHECKS = {
             'event.',
             'ldap/uuid matching rules not covered; sockets replaced by a recording stub; the reference matcher mirrors the documented '
             'rule (raw split on "/", per-segment percent-decoding).', '3/C14'),
-    'C15': ('I', 'exhaustive enumeration of all outcomes of both random draws (choice-point DFS on the real scheduling code)',
-            'Extensions: the real send loop on a virtual clock with a stop request before, between and after the scheduled transmissions: nothing is sent before its scheduled time or later than the loop raster. '
+    'C15': ('I+S', 'exhaustive enumeration of all outcomes of both random draws (choice-point DFS on the real scheduling code); preemption-bounded schedule exploration of add_outbound_message against the send / loop-back path',
+            'Extensions: schedule part c15_sched: add_outbound_message against the send / loop-back / read path at statement granularity (the own id must be known before the first copy can come back); the real send loop on a virtual clock with a stop request before, between and after the scheduled transmissions: nothing is sent before its scheduled time or later than the loop raster. '
             'All 501 x 200 outcomes of the two random draws for the unicast and the multicast parameter set are executed '
             'on the real NetworkingThread.add_outbound_message/_repeated_enqueue_msg with clock and RNG owned by the '
             'harness; the envelope (count, initial delay, first-gap window, doubling, cap in seconds) is checked on every '
@@ -199,7 +201,7 @@ CHECKS = {
             'Sockets are stubbed (no datagram is sent); time.time() is a fixed virtual instant; the send loop itself '
             '(10 ms raster) is outside the property.', '3/C15'),
     'C16': ('I', 'exhaustive enumeration of the element-value product (present/absent x special characters) and of a scope-string grammar on the real SdcLocation / set_location / mk_scopes code',
-            'Extensions: 34 tricky texts (percent sequences, plus, reserved characters) in every element and in pairs, through round trip and the published-scope path. '
+            'Extensions: location state updated in place (previous location full / single element / complement); normalisation-sensitive unicode (NFC / NFKC / case folding); SdcLocation objects whose elements are changed between uses; 34 tricky texts (percent sequences, plus, reserved characters) in every element and in pairs, through round trip and the published-scope path. '
             'All |V|^6 locations over a value domain with reserved URL characters, encoded slashes, non-ASCII text and absent elements '
             '(4^6 quick, 8^6 thorough) are converted to a scope string and parsed back; for all locations over a sub-domain the scope '
             'actually published by a real provider (set_location -> LocationContextState.update_from_sdc_location -> mk_scopes) is '
@@ -209,7 +211,7 @@ CHECKS = {
             'Empty string == absent element; the all-absent location is not published (rejected by contract); values outside the '
             'domain V are not covered.', '3/C16'),
     'C17': ('I', 'exhaustive enumeration of small byte strings x chunk sizes x codings with http.client as independent framing oracle, single-byte corruption at every offset, and the product of Accept-Encoding shapes through the real handler / client code against an RFC 7231 reference',
-            'Extensions: sequences of 2 (thorough 3) requests with different Accept-Encoding headers on one keep-alive connection. '
+            'Extensions: data after the end of the compressed stream (second member / frame, padding, junk) against reference decoders (stdlib gzip, frame-by-frame lz4); provider-level configuration histories: set_used_compression before / after start for every ordered pair of settings, own HTTP server and notification clients; sequences of 2 (thorough 3) requests with different Accept-Encoding headers on one keep-alive connection. '
             'All byte strings of length <= 4 (thorough 5) over {00, a, CR, LF} with every chunk size 1..len+2 and large bodies (511..65536 '
             'bytes, thorough up to 5 MiB) with boundary chunk sizes are framed by mk_chunks and decoded by _read_dechunk, '
             'read_request_body, read_response_body and, as independent oracle, Python\'s http.client.HTTPResponse; every registered '
@@ -246,6 +248,7 @@ CHECKS = {
             'TLS-to-plaintext and plaintext-to-TLS connects like a real peer; that the real socket classes honour the context they '
             'are given is not explored.', '3/C19'),
     'C20': ('I', 'exhaustive enumeration of all handle lists up to a length bound over several MDIB contents, and of the full product of localization filter parameters over several stores, through the real consumer clients and provider services',
+            'Extensions: text store filled by several add() calls in every order (late versions, late single translation, repeated batch); '
             'All handle lists of length <= 2 (thorough 3) over a pool of 9-11 handles (two context-state handles, context descriptors, '
             'metric, MDS of both MDS, VMD, system context, unknown - duplicates and mixed kinds arise by construction) are sent as '
             'GetMdState and GetContextStates through the real consumer service clients over the loop-back transport, for 4 MDIB '
